@@ -402,6 +402,63 @@ func runC17(c *core.Ctx) {
 		}
 	}
 
+	// one flow per shape of the URL the browser asked for: the login ends at exactly that URL (path and query verbatim), and long indices
+	// chosen by the application's relay-state function keep working (alone, and next to a second flow that shares a long prefix)
+	c.Group("started-url-shapes-and-long-indices")
+	// (paths with empty or dot segments are left out: net/http's Redirect cleans those itself, as its ServeMux does before any handler runs)
+	shapes := []string{"/docs/", "/docs/sub/", "/?q=1", "/x?next=https://other.example/x", "/x?a=/../b&c=//d", "/x;param=1", "/x%20y/", "/x?%2F=%2f", "/x/?", "/x?", "/%2e%2e/y", "/x?a=b#not-sent", "/x?a=./b&c=../d/"}
+	longPfx := strings.Repeat("t", 70)
+	longIdx := []string{"", longPfx + "-0123456789", longPfx + "-0123456789-and-more-than-that-0123456789", strings.Repeat("u", 200)}
+	for si, u := range shapes {
+		for xi, ix := range longIdx {
+			if xi > 0 && si > 1 {
+				continue
+			}
+			for _, binding := range []string{"redirect", "post"} {
+				u, ix, binding := u, ix, binding
+				key := fmt.Sprintf("url-shape/%s/url=%d/index=%d", binding, si, xi)
+				c.Case(key, func(t *core.T) {
+					t.NonTrivial()
+					w := newC17World(c17Cfg{binding, "https", "sp2048", "nil"})
+					if ix != "" {
+						tr, ok := w.m.RequestTracker.(samlsp.CookieRequestTracker)
+						if !ok {
+							t.Outcome("other-tracker")
+							return
+						}
+						// the application derives the index from the request: a long common prefix, then the path
+						tr.RelayStateFunc = func(_ http.ResponseWriter, r *http.Request) string { return ix + "." + strings.ReplaceAll(r.URL.Path, "/", ".") }
+						w.m.RequestTracker = tr
+					}
+					if strings.Contains(u, "#") {
+						u = u[:strings.Index(u, "#")]
+					}
+					st := &c17State{jar: map[string]c17Cookie{}, ever: map[string]string{}, flows: []c17Flow{{url: u, user: w.users[0]}, {url: w.urls[0], user: w.users[1]}}}
+					var bad []string
+					bad = append(bad, c17Start(w, st, 0)...)
+					if ix != "" {
+						bad = append(bad, c17Start(w, st, 1)...) // a second pending flow whose index shares the long prefix
+					}
+					if len(bad) == 0 && st.flows[0].status == 1 {
+						k := 0
+						if ix != "" {
+							k = 1 // answer the second one: it must end at its own URL, and leave the first one pending
+						}
+						bad = append(bad, c17Answer(w, st, k)...)
+						bad = append(bad, c17Deliver(w, st, k, st.flows[k].index, "own", w.view(st, "/saml/acs"), "jar")...)
+					}
+					t.Impl(w.impl)
+					t.Compared()
+					t.Outcome(fmt.Sprintf("status=%d owner=%q", st.flows[0].status, st.owner))
+					for _, b := range bad {
+						f, d, _ := strings.Cut(b, "|")
+						t.Fail("C17/url-shapes/"+f, "url %+q index %+q: %s", u, truncStr(ix, 30), d)
+					}
+				})
+			}
+		}
+	}
+
 	c.Note("bfs_states", float64(totalStates))
 	c.Note("bfs_transitions", float64(totalTrans))
 }
